@@ -254,8 +254,9 @@ PROPS = {
         "gen": ["consts", "shape"],
         "clauses": ["C12"],
         "modes": [{"name": "srvseq-version", "harness": "srvseq", "modelcheck": "srvseq", "args": ["version"]},
+                  {"name": "clntver", "harness": "clntver", "modelcheck": "clnt"},
                   {"name": "srvseq-random", "harness": "srvseq", "modelcheck": "srvseq", "args": ["random"]}],
-        "rule": "grid server msize x client msize over {0, 1, 23, 24, 25, 64, 100, 4096, 8191, 8192, 8193, 1 MiB+24, 2^32-1} x server dialect x version strings {9P2000, 9P2000.u, 9P2000.L, empty, junk, near misses}; after negotiation replies of every kind incl. a 255-byte-name Rstat, 16-qid Rwalk, 300-byte Rerror, reads with counts up to the limit, and a second Tversion lowering msize mid-session so replies go through recycled buffers; random histories with frames above msize. Oracle: Rversion = min / dialect conjunction, small msize refused, no reply longer than the msize in force, replies decodable in the negotiated dialect, oversize or undecodable frames answered by nothing and executing nothing. Non-trivial: >= 3 requests with at least one forwarded; distinct by content.",
+        "rule": "clntver (the client's direction): the real client's Connect against a scripted peer answering Rversion with msize far below / 1..25 below / equal to / above the client's proposal (client msize 24 .. 1 MiB+24) and either version string, for clients that do and do not ask for 9P2000.u; then attach, open (reported iounit 0, small, huge, msize-24, msize-23), one Write and one Read with buffers up to 3 x msize: the Tversion sent, the msize and dialect adopted, the largest Twrite frame and the Tread count are compared with Clnt/Version.v (clnt_connect, open_iounit, twrite_frame_len, tread_count); oracle: adopted msize = min, no frame above it, dialect conjunction. grid server msize x client msize over {0, 1, 23, 24, 25, 64, 100, 4096, 8191, 8192, 8193, 1 MiB+24, 2^32-1} x server dialect x version strings {9P2000, 9P2000.u, 9P2000.L, empty, junk, near misses}; after negotiation replies of every kind incl. a 255-byte-name Rstat, 16-qid Rwalk, 300-byte Rerror, reads with counts up to the limit, and a second Tversion lowering msize mid-session so replies go through recycled buffers; random histories with frames above msize. Oracle: Rversion = min / dialect conjunction, small msize refused, no reply longer than the msize in force, replies decodable in the negotiated dialect, oversize or undecodable frames answered by nothing and executing nothing. Non-trivial: >= 3 requests with at least one forwarded; distinct by content.",
         "level_text": "Coq theorems (Props/C12.v): Tversion yields exactly min(client msize, connection msize) and 9P2000.u only if the client asked for it and the server supports it, an msize below IOHDRSZ is refused leaving the connection unchanged; for EVERY later request and whatever the implementation answers no reply is longer than the msize in force when the request arrived (too long replies and error texts are replaced/truncated as the code does); msize stays within [IOHDRSZ, server msize]; the framing specification the receive loop is proved equal to (C13) never delivers a frame above msize or below a header. Tied to the code by the negotiation grid with byte-exact reply comparison.",
         "level_note": "Trusted: Coq kernel; translator for error texts/numbers, IOHDRSZ/MSIZE/NOFID/NOUID and the QT*/DM*/O* bits; extraction + OCaml driver; the Go harness (scripted implementation, net.Pipe transport). One request at a time (the concurrent life cycle is C03/C07/C08/C11); the user database is the default OsUsers; the implementation is an arbitrary input (script) answering with the matching R-message or an error; the reply buffer is modelled by its capacity. Print Assumptions: closed under the global context. Rread never carrying more than Tread asked for is the Ufs read model of C14 (pread clamps to count); the client side of the negotiation (Connect adopting min / conjunction) is exercised by the C09/C10/C14 harness sessions, not modelled.",
     },
